@@ -33,6 +33,7 @@ ENC = "<net::codec::SyncCodec as tokio_util::codec::Encoder<net::codec::Message>
 EXPLANATION += ' (R3, round 8) a length guard does not discharge a `str` sliced at a byte offset (only a character-boundary / ASCII test does).'
 EXPLANATION += " (R7, round 9) = C03.R4's pinned canonical layout of a signed entry."
 EXPLANATION += ' (R8, round 10) = C13.R2: decoding an author-heads report rebuilds it through AuthorHeads::insert, which keeps every author (also at timestamp 0) at its maximum.'
+EXPLANATION += ' (R9, round 11) = the set / get cells of C15.R2: a policy survives its storage round trip, also one with an empty filter list.'
 
 
 def _truth(k, v):
